@@ -46,4 +46,41 @@ example :
       .expire, .cb 0, .readRet (.rune 0x41), .main]).isSome = true := by
   refine ⟨?_, ?_, ?_, ?_, ?_⟩ <;> decide +kernel
 
+/-- **Every failed check and every `p.ignoreST = false` of a callback can stand directly in front of the
+    callback's deferred `Unlock`** (harness label `cb k` runs on from yield point 31 / 34 to 39).  Any
+    `TimerOk` table, any start state that meets `FInv` (every reachable state does), any schedule that
+    runs to `r` and does not end with a callback between such a statement and its `Unlock` (no callback
+    at `failed` / `stSet` in `r`): the schedule `cbNorm T none f0 ls` is a permutation, runs to the same
+    `r`, and along its run every `.cb k` that takes callback `k` to `failed` or `stSet` is immediately
+    followed by `.cb k` (to `gone`).  (That statement is carried forward: it commutes with every
+    statement of every other goroutine that is outside the mutex — `cb_mid_commutes` — and while callback
+    `k` holds the mutex nobody else is inside, by `FInv`.) -/
+theorem callback_unlock_adjacent_form (T : Table) (hT : VaxisModel.Lemmas.ParserRunFine.TimerOk T) (f0 : FSys)
+    (hinv : VaxisModel.Lemmas.ParserRunFine.FInv f0) (ls : List FLabel) (r : FSys × List Seq)
+    (h : FSys.run T f0 ls = some r) (hend : ∀ c ∈ r.1.cbs, c.2 ≠ .failed ∧ c.2 ≠ .stSet) :
+    ∃ ls', FSys.run T f0 ls' = some r ∧ ls'.Perm ls ∧ cbAdj T f0 ls' = true :=
+  ⟨cbNorm T none f0 ls, by rw [cbNorm_run T hT ls none f0 hinv (fun _ h => by cases h)]; exact h,
+    cbNorm_perm T ls none f0, cbNorm_adj T hT ls none f0 hinv (fun _ h => by cases h) ⟨r, h, hend⟩⟩
+
+-- non-vacuity: a lone ESC, its timer expires, `A` is read and parsed (generation 2), then the callback locks
+-- and fails its check; the main goroutine goes on to the read before the callback unlocks — not adjacent.
+-- Normal form: the failed check directly in front of the deferred `Unlock`; same result.
+example :
+    cbAdj handTable FSys.init [.main, .readRet (.rune 0x1B), .main, .main, .main, .main, .main, .expire, .main,
+      .readRet (.rune 0x41), .main, .main, .main, .main, .main, .cb 0, .cb 0, .main, .cb 0] = false ∧
+    cbNorm handTable none FSys.init [.main, .readRet (.rune 0x1B), .main, .main, .main, .main, .main, .expire, .main,
+      .readRet (.rune 0x41), .main, .main, .main, .main, .main, .cb 0, .cb 0, .main, .cb 0] =
+      [.main, .readRet (.rune 0x1B), .main, .main, .main, .main, .main, .expire, .main,
+       .readRet (.rune 0x41), .main, .main, .main, .main, .main, .cb 0, .main, .cb 0, .cb 0] ∧
+    cbAdj handTable FSys.init [.main, .readRet (.rune 0x1B), .main, .main, .main, .main, .main, .expire, .main,
+      .readRet (.rune 0x41), .main, .main, .main, .main, .main, .cb 0, .main, .cb 0, .cb 0] = true ∧
+    FSys.run handTable FSys.init [.main, .readRet (.rune 0x1B), .main, .main, .main, .main, .main, .expire, .main,
+      .readRet (.rune 0x41), .main, .main, .main, .main, .main, .cb 0, .cb 0, .main, .cb 0] =
+    FSys.run handTable FSys.init [.main, .readRet (.rune 0x1B), .main, .main, .main, .main, .main, .expire, .main,
+      .readRet (.rune 0x41), .main, .main, .main, .main, .main, .cb 0, .main, .cb 0, .cb 0] ∧
+    (FSys.run handTable FSys.init [.main, .readRet (.rune 0x1B), .main, .main, .main, .main, .main, .expire, .main,
+      .readRet (.rune 0x41), .main, .main, .main, .main, .main, .cb 0, .main, .cb 0, .cb 0]).map
+        (fun r => (r.1.mpc, r.1.cbs, r.2)) = some (.inRead, [(1, .gone)], [.esc [] 0x41]) := by
+  refine ⟨?_, ?_, ?_, ?_, ?_⟩ <;> decide +kernel
+
 end VaxisModel.Props.C08SchedGroup
